@@ -44,6 +44,9 @@ def run(ctx: Ctx, chk) -> None:
     from .orderedio import ordered_io
 
     chk.run_rule(ordered_io, ctx)
+    from .orderedio import executor_alive
+
+    chk.run_rule(executor_alive, ctx)
     chk.run_rule(disc1, ctx)
     from . import connleak
 
